@@ -233,6 +233,9 @@ def class_defines(cls_qname, name):
 
 def resolve_method(cls_qname, name):
     """Walk declared bases to the class whose body defines `name`."""
+    short = cls_qname.split(".")[-1].lstrip("_")
+    if name.startswith("_" + short + "__"):
+        name = name[len(short) + 1 :]  # undo private-name mangling: _Cls__x is defined as __x
     info = CLASSES.get(cls_qname)
     if class_defines(cls_qname, name):
         return cls_qname + "." + name
